@@ -569,7 +569,7 @@ func checkC14(c *Ctx, r *Report) error {
 	if err != nil {
 		return err
 	}
-	imports := "From Coq Require String.\nFrom Sdfx Require Import Io.F32 Io.Stl Io.StlLoad.\nImport String.StringSyntax.\nOpen Scope N_scope."
+	imports := "From Coq Require String.\nFrom Coq Require Import Uint63.\nFrom Sdfx Require Import Io.F32 Io.Stl Io.StlLoad.\nImport String.StringSyntax.\nOpen Scope N_scope."
 	cs := &Cases{Kind: "load", Imports: imports, Type: "StlLoad.case", Fn: "StlLoad.mismatches", PerShard: 60}
 	small := &Cases{Kind: "loadbig", Imports: imports, Type: "StlLoad.case", Fn: "StlLoad.mismatches", PerShard: 4}
 	var maxRatio, maxIRatio float64
